@@ -1,5 +1,6 @@
 """C19 - the C interface is a faithful view of the C++ implementation (engine A: finite table + differential)."""
 import ctypes
+import os
 import subprocess
 
 from vlib import alpha, build, ffi, ref, wk
@@ -12,7 +13,8 @@ RULE = ("static part, exhaustive over a finite table: for EVERY structure of the
         "EVERY member on both sides (private cursor members included), and every exported constant (group order, identities, generators, gt generator, five "
         "marshalled sizes, coeffs[68] vs num_coeffs), measured by a generated translation unit compiled under each word-size configuration {x86-64 asm, portable "
         "64-bit, portable 32-bit}. dynamic part: the list of exported C functions is taken from the built library's symbol table (a new or renamed symbol is "
-        "noticed); EVERY function is called on argument alphabets and must return byte for byte what the corresponding C++ operation returns (same random stream "
+        "noticed); the same struct/member table is cross-compiled for the data models this host cannot run (ARMv6-M and ARMv7-A ILP32, i386 ILP32, AArch64 LP64) "
+        "and read back from the object file; EVERY function is called on argument alphabets and must return byte for byte what the corresponding C++ operation returns (same random stream "
         "where one is consumed). distinct by construction; non-trivial = every row")
 ASSUMPTIONS = ["the C++ side is decided by C01-C16; this check only compares the two views"]
 CONFIGS = ["asm", "c64", "c32"]
@@ -22,6 +24,50 @@ def layout_rows(cfg):
     exe = build.build_exe(cfg, "c19_layout", ["c19_layout.cpp"], extra_flags=["-fno-access-control"])
     out = subprocess.run([exe], stdout=subprocess.PIPE, text=True, check=True).stdout
     return [l.split() for l in out.splitlines() if l]
+
+
+# data models this host cannot execute: the layout table is cross-compiled (clang needs no sysroot for a freestanding TU) and read back from
+# the object file.  ILP32: size_t, long and pointers are 4 bytes - a C struct written with a fixed-width type where the C++ side says size_t
+# (or the reverse) agrees on every LP64 configuration and breaks here.
+DATA_MODELS = {"armv6m-ilp32": ["-target", "thumbv6m-none-eabi"], "armv7a-ilp32": ["-target", "armv7a-linux-gnueabihf"], "i386-ilp32": ["-target", "i386-linux-gnu"],
+               "aarch64-lp64": ["-target", "aarch64-linux-gnu"]}
+STUB_STRING_H = """#pragma once
+#include <stddef.h>
+extern "C" { void* memcpy(void*, const void*, size_t); void* memset(void*, int, size_t); int memcmp(const void*, const void*, size_t);
+void* memmove(void*, const void*, size_t); size_t strlen(const char*); }
+"""
+
+
+def layout_rows_static(model):
+    """rows [kind, name, v0..v3] of the cross-compiled table, or raises build.BuildError('library') if the headers do not compile for the target"""
+    import struct
+    import tempfile
+    with tempfile.TemporaryDirectory(prefix="c19x") as d:
+        os.makedirs(os.path.join(d, "stub"))
+        with open(os.path.join(d, "stub", "string.h"), "w") as fh:
+            fh.write(STUB_STRING_H)
+        obj = os.path.join(d, "l.o")
+        common = ["-std=c++17", "-ffreestanding", "-fno-exceptions", "-fno-rtti", "-fno-access-control", "-O0", "-I", os.path.join(d, "stub"),
+                  "-I", os.path.join(build.REPO, "include"), "-c", os.path.join(build.VERIF, "harness", "c19_layout_static.cpp")]
+        p = subprocess.run(["clang++"] + DATA_MODELS[model] + common + ["-o", obj], stdout=subprocess.PIPE, stderr=subprocess.STDOUT, text=True)
+        if p.returncode != 0:
+            h = subprocess.run(["clang++"] + common + ["-fsyntax-only"], stdout=subprocess.PIPE, stderr=subprocess.STDOUT, text=True)
+            raise build.BuildError("harness" if h.returncode != 0 else "library", "layout table does not compile for %s:\n%s" % (model, p.stdout[-3000:]), model)
+        binf = os.path.join(d, "r.bin")
+        subprocess.run(["llvm-objcopy", "-O", "binary", "--only-section=.rodata", obj, binf], check=True)
+        b = open(binf, "rb").read()
+    rows = []
+    for i in range(0, len(b) - 91, 92):
+        kind = b[i:i + 4].split(b"\0")[0].decode()
+        name = b[i + 4:i + 76].split(b"\0")[0].decode()
+        v = struct.unpack("<4I", b[i + 76:i + 92])
+        if kind == "E":
+            break
+        # same column order as the executed table: S name csize calign xsize xalign ; O name coff xoff csize xsize
+        rows.append([kind, name] + [str(x) for x in v])
+    if len(rows) < 90:
+        raise build.BuildError("harness", "layout table of %s has only %d rows" % (model, len(rows)), model)
+    return rows
 
 
 def c_functions(L):
@@ -453,7 +499,7 @@ def compare_marshal(E, name, eq, n, msgs):
 def eval_case(case):
     if case["sub"] == "layout":
         msgs = []
-        for row in layout_rows(case["cfg"]):
+        for row in (layout_rows(case["cfg"]) if case["cfg"] not in DATA_MODELS else layout_rows_static(case["cfg"])):
             if row[0] == "S" and (row[2], row[3]) != (row[4], row[5]):
                 msgs.append("%s: struct %s: C size/align %s/%s, C++ %s/%s" % (case["cfg"], row[1], row[2], row[3], row[4], row[5]))
             if row[0] == "O" and ((row[2] != row[3]) or (row[4] != row[5])):
@@ -474,7 +520,7 @@ _ENV = {}
 def shards(ctx):
     for c in CONFIGS:
         build.build(c)
-    out = [{"sub": "layout", "cfg": c} for c in CONFIGS]
+    out = [{"sub": "layout", "cfg": c} for c in CONFIGS] + [{"sub": "layout", "cfg": m} for m in DATA_MODELS]
     for c in CONFIGS:
         fns = c_functions(ffi.lib(c))
         for k in range(6):
@@ -486,7 +532,9 @@ def shards(ctx):
 def run_shard(ctx, shard):
     cfg = shard["cfg"]
     if shard["sub"] == "layout":
-        rows = layout_rows(cfg)
+        rows = layout_rows(cfg) if cfg not in DATA_MODELS else layout_rows_static(cfg)
+        if cfg in DATA_MODELS:
+            ctx.ok(True, "layout:data-model:" + cfg, n=len(rows))
         case = {"sub": "layout", "cfg": cfg}
         msgs = eval_case(case)
         ctx.ok(True, "layout:struct", n=sum(1 for r_ in rows if r_[0] == "S"))
@@ -524,7 +572,7 @@ def finish(merged, cov):
     cov["c_functions_exported"] = merged.extra.get("c_functions_asm", 0)
     if fns < merged.extra.get("c_functions_asm", 0):
         return "only %d of %d exported C functions compared" % (fns, merged.extra.get("c_functions_asm", 0))
-    for need in ("layout:struct", "layout:member", "layout:constant", "function:bls12", "function:wkdibe", "function:lqibe"):
+    for need in ("layout:struct", "layout:member", "layout:constant", "function:bls12", "function:wkdibe", "function:lqibe", "layout:data-model:armv6m-ilp32", "layout:data-model:i386-ilp32"):
         if not merged.outcomes.get(need):
             return "class %s never exercised" % need
     cov["states"] = merged.evaluations
